@@ -3,7 +3,7 @@ Views share storage; origin tags and guarded stores give the write log used for 
 import numpy as real_np
 import z3
 from .values import (SF, UNDEF, Undef, Unsupported, MIN_INT, is_sym, to_z3_bool, conc_bool, b_and, b_or, b_not,
-                     ite, zb, lift, _ITE_HOOKS, isnan, to_real)
+                     ite, zb, lift, _ITE_HOOKS, isnan, to_real, same)
 from .runtime import current, GuardedSeq
 
 
@@ -620,15 +620,20 @@ class A:
         r = self._ew(o, f, self.dtype)
         if r is NotImplemented:
             return r
+        old = list(self.cells)
         self._bulk_store(slice(None), r, current())
         if self.st.origin is not None:
             rt = current()
-            rt.obligations.append(("input_write", True, False, rt.where() + ":" + str(self.st.origin)))
+            # the property speaks of CONTENTS: the obligation fails for inputs on which some cell receives a different value
+            changed = b_or(*[b_not(same(a, b)) for a, b in zip(old, r.cells)]) if len(old) == len(r.cells) else True
+            rt.obligations.append(("input_write", changed, False, rt.where() + ":" + str(self.st.origin)))
         return self
 
     def __iadd__(self, o): return self._inplace(o, _add)
     def __isub__(self, o): return self._inplace(o, _sub)
     def __imul__(self, o): return self._inplace(o, _mul)
+    def __iand__(self, o): return self._inplace(o, lambda a, b: b_and(a, b))
+    def __ior__(self, o): return self._inplace(o, lambda a, b: b_or(a, b))
 
     def __pow__(self, k):
         if k == 2:
